@@ -48,7 +48,8 @@ def reset_script(rng, plat):
         ops.append(f"H off a {1024 * k}")
         if rng.random() < 0.5:
             ops.append(f"H upd a {pat(rng.choice([1, 500, 1024]), rng)}")
-        ops.append(rng.choice([f"H upd a {pat(1024 * k + rng.choice([1, 1024, 5000]), rng)}", "H fin a", "H xof a x"]))
+        # `NR`: the harness does not restore the register after the panic
+        ops.append("NR " + rng.choice(([f"H upd a {pat(1024 * k + rng.choice([1, 1024, 5000]), rng)}"] if k <= 4 else []) + ["H fin a", "H xof a x"]))
     elif kind == "fin":
         ops += [f"H upd a {pat(3000, rng)}", "H fin a", "H xof a x", "X fill x 10"]
     # Hasher::reset itself, or one of the ways the trait impls (src/traits.rs) reach it
